@@ -82,6 +82,8 @@ pub fn op_counts() -> Vec<(String, u64)> {
 
 pub fn sched_event(event: String) {
   if SCHED_TRACE.load(Relaxed) {
+    // also on stderr so the trace survives a crash
+    eprintln!("VERIF-SCHED {}", event);
     SCHED.with(|s| {
       let mut s = s.borrow_mut();
       if s.len() < 20_000 {
